@@ -114,6 +114,8 @@ def gen_string_schema(ctx):
 
 def gen_schema(ctx, depth):
     rng = ctx.rng
+    if not ctx.full and depth > 0 and rng.random() < 0.08:
+        return gen_allof(ctx, depth)
     r = rng.random()
     if depth <= 0:
         r = r * 0.55
@@ -238,6 +240,51 @@ def gen_schema(ctx, depth):
     if x < 0.8:
         return {"if": {"type": "integer"}, "then": {"minimum": 5}, "else": {"type": "string"}}
     return {"oneOf": [{"type": "integer"}, {"type": "number", "minimum": 2}]}
+
+
+def gen_allof(ctx, depth):
+    """an intersection of two schemas of one kind (schema.rs intersect): tuples of different length against `items`,
+    string constants against enums / lengths (possibly disjoint: the branch is unsatisfiable), object shapes; written as
+    allOf of both, or as sibling keywords plus allOf, in either order"""
+    rng = ctx.rng
+    k = rng.random()
+    if k < 0.4:
+        scal = [{"type": "integer"}, {"type": "string"}, {"type": "boolean"}, {"const": 1}, {"type": "integer", "minimum": 0, "maximum": 3}]
+        a = {"type": "array", "prefixItems": [rng.choice(scal) for _ in range(rng.randint(1, 3))]}
+        if rng.random() < 0.4:
+            a["items"] = rng.choice(scal + [False])
+        b = {"type": "array", "items": rng.choice(scal)}
+        if rng.random() < 0.5:
+            b["prefixItems"] = [rng.choice(scal) for _ in range(rng.randint(1, 2))]
+        if rng.random() < 0.4:
+            b["minItems"] = rng.choice([0, 1, 2])
+        if rng.random() < 0.4:
+            a["maxItems"] = rng.choice([1, 2, 3])
+    elif k < 0.75:
+        strs = ["cat", "dog", "bird", "a", "ab", "é"]
+        def one():
+            x = rng.random()
+            if x < 0.35:
+                return {"const": rng.choice(strs)}
+            if x < 0.75:
+                return {"enum": rng.sample(strs, rng.randint(1, 3))}
+            if x < 0.9:
+                return {"type": "string", "maxLength": rng.choice([1, 2, 3])}
+            return {"type": "string", "minLength": rng.choice([2, 3])}
+        a, b = one(), one()
+    else:
+        a = {"type": "object", "properties": {"a": gen_schema(ctx, 0)}, "required": ["a"]}
+        b = {"type": "object", "properties": {"a": gen_schema(ctx, 0), "b": gen_schema(ctx, 0)}}
+        if rng.random() < 0.5:
+            b["additionalProperties"] = False
+    if rng.random() < 0.5:
+        a, b = b, a
+    s = {"allOf": [a, b]} if rng.random() < 0.6 else dict(a, allOf=[b])
+    if k >= 0.4 and k < 0.75 and rng.random() < 0.6:
+        # in an optional position an unsatisfiable intersection must be dropped, in a required one refused
+        return {"type": "object", "properties": {"kind": s, "name": {"type": "string", "maxLength": 3}},
+                "required": (["kind"] if rng.random() < 0.3 else []), "additionalProperties": False}
+    return s
 
 
 def top_schema(rng, full=False, depth=2):
